@@ -36,7 +36,7 @@ Proof. exact tracing_transparent. Qed.
 Example C19_ex :
   let s := {| s_backoff := Periodic 2 0; s_codes := None; s_excs := Some [9%nat] |} in
   let a k t := {| a_kind := k; a_tag := t |} in
-  snd (traced_run (Some s) PUnset (fun _ => 0%Q) 2%nat false [a (KExc 2) 0%nat; a KNone 1%nat])
+  snd (traced_run (Some s) RUnset (fun _ => 0%Q) 2%nat false [a (KExc 2) 0%nat; a KNone 1%nat])
   = [TBegin 0 (CtxFresh 0); TBegin 1 (CtxFresh 0); TError 0 (CtxFresh 0) 0; TError 1 (CtxFresh 0) 0;
      TBegin 0 (CtxFresh 1); TBegin 1 (CtxFresh 1); TEnd 0 (CtxFresh 1) None; TEnd 1 (CtxFresh 1) None]%nat.
 Proof. vm_compute. reflexivity. Qed.
